@@ -287,17 +287,14 @@ func open(ctx context.Context, h *Handler, acked bool, s *xmpp.Session, start st
 		iq.Open.BlockSize = blockSize
 	}
 
-	resp, err := s.SendIQ(ctx, iq.TokenReader())
+	// Only a result means that the other side accepted the stream; error
+	// replies are returned as errors.
+	err := s.UnmarshalIQ(ctx, iq.TokenReader(), nil)
 	if err != nil {
 		return nil, err
 	}
-	/* #nosec */
-	defer resp.Close()
 
-	conn, err := newConn(h, s, iq, false, MaxBufferSize), nil
-	if err != nil {
-		return nil, err
-	}
+	conn := newConn(h, s, iq, false, MaxBufferSize)
 	h.addStream(sid, conn)
 	return conn, nil
 }
